@@ -127,3 +127,127 @@ Proof.
   rewrite Hts in *. subst sz'. cbn [DataSize PointerCount] in *.
   rewrite padToWord_id; lia.
 Qed.
+
+(* ------------------------------------------------------------------ outcomes with the potential *)
+Definition kpostwk (w : world) (k : Z) (r : cout world) : Prop :=
+  match r with KPanic => False | KOk w' => wgood w w' /\ Phi w' <= Phi w + k | _ => True end.
+Definition kpostpk (w : world) (k : Z) (r : cout (world * Ptr)) : Prop :=
+  match r with
+  | KPanic => False
+  | KOk (w', cp) => wgood w w' /\ cp_ok (w_dst w') cp /\ Phi w' <= Phi w + k
+  | _ => True
+  end.
+
+Definition pcost (p : Ptr) : Z := if p_valid p then readSize p + 15 + 32 * slots p else 0.
+
+Lemma kfold_postk {A} (I : A -> Prop) (Ph : A -> Z) (c : Z) (f : A -> Z -> cout A) : forall l a,
+  (forall x b, In x l -> I b ->
+     match f b x with KPanic => False | KOk b' => I b' /\ Ph b' <= Ph b + c | _ => True end) -> I a ->
+  match kfold l a f with KPanic => False | KOk a' => I a' /\ Ph a' <= Ph a + c * zlen l | _ => True end.
+Proof.
+  induction l as [|x l IH]; intros a Hf Ha; cbn [kfold].
+  - split; [exact Ha|]. unfold zlen. cbn [length]. lia.
+  - pose proof (Hf x a (or_introl eq_refl) Ha) as H. destruct (f a x) as [b| | |]; cbn [kbind]; auto.
+    destruct H as [Hb Pb].
+    specialize (IH b ltac:(intros y c0 Hy; apply Hf; right; assumption) Hb).
+    destruct (kfold l b f); auto. destruct IH as [I2 P2]. split; [exact I2|].
+    unfold zlen in *. cbn [length]. lia.
+Qed.
+
+Lemma write_ptr_nocopy_k f w dsid off cp : dok (w_dst w) -> 0 <= w_src_rl w ->
+  region_ok (w_dst w) dsid off 8 -> cp_ok (w_dst w) cp ->
+  rpostk w 16 (write_ptr (S f) true w dsid off InDst cp false).
+Proof.
+  intros Hd Hr Hreg Hcp. rewrite write_ptr_S.
+  destruct (p_valid cp) eqn:V; cbn [negb]; [|eapply rpostk_weaken; [|apply lift0_write_k; assumption]; lia].
+  destruct (Hcp V) as (Hs & Hm & Hsh & Hal). specialize (Hsh V).
+  destruct (p_kind cp) eqn:K.
+  - destruct (os_isZero (p_size cp)).
+    { destruct (rawStructPointer (-1) (mkOS 0 0)) eqn:E; [|vm_compute in E; discriminate].
+      cbn [of_opt_panic bind]. eapply rpostk_weaken; [|apply lift0_write_k; assumption]. lia. }
+    cbn [is_src orb]. rewrite Hm. cbn [bind].
+    destruct (rawStructPointer_some 0 (p_size cp) (Hal eq_refl)) as [raw ->]. cbn [of_opt_panic bind].
+    apply place_k; assumption.
+  - cbn [is_src orb bind].
+    pose proof (list_raw_shape cp V K ltac:(intros _; rewrite K; exact Hsh)) as NR.
+    destruct (list_raw cp) as [raw| |]; cbn [bind]; [|exact I|congruence].
+    apply place_k; assumption.
+  - cbn [is_src]. eapply rpostk_weaken; [|apply lift0_write_k; assumption]. lia.
+Qed.
+
+Definition A_fill (c : config) (fx : cfix) (f : nat) : Prop := forall w dst s,
+  dok (w_dst w) -> msg_ok (w_src w) -> 0 <= w_src_rl w -> dst_ok (w_dst w) dst ->
+  wf_struct (w_src w) s -> p_valid s = true ->
+  kpostwk w (32 * PointerCount (p_size dst)) (fill_canonical c fx f w dst s).
+Definition A_ptr (c : config) (fx : cfix) (f : nat) : Prop := forall w sid p,
+  dok (w_dst w) -> msg_ok (w_src w) -> 0 <= w_src_rl w -> 0 <= sid < nsegs (w_dst w) ->
+  wf_ptr (w_src w) p -> shape_ok p ->
+  kpostpk w (pcost p) (canonical_ptr c fx f w sid p).
+Definition A_list (c : config) (fx : cfix) (f : nat) : Prop := forall w sid l,
+  dok (w_dst w) -> msg_ok (w_src w) -> 0 <= w_src_rl w -> 0 <= sid < nsegs (w_dst w) ->
+  wf_list (w_src w) l -> shape_ok l ->
+  kpostpk w (pcost l) (canonical_list c fx f w sid l).
+
+(* one pointer slot of the destination: dereference in the source (charged), canonical copy,
+   pointer written with at most one landing pad: at most 32 on the potential *)
+Lemma slot_cost m p rl rl' : msg_ok m -> wf_ptr m p -> 0 <= rl' -> rl' + readSize p = rl ->
+  - 5 * readSize p + pcost p + 16 <= 32.
+Proof.
+  intros Hm Hw H0 H1. unfold pcost. pose proof (readSize_nonneg p). pose proof (slots_le_readSize m p Hm Hw).
+  destruct (p_valid p); lia.
+Qed.
+
+Lemma afill_step c fx f : cfg_strict c = true -> A_ptr c fx f -> A_fill c fx (S f).
+Proof.
+  intros Hc IH w dst s Hd Hm Hr Hdst Hs V. pose proof Hdst as (Vd & Zd & Rd). rewrite fill_canonical_S.
+  unfold dst_seg, src_seg. rewrite nth_bm_data. unfold wf_size in Zd.
+  assert (region_ok (w_dst w) (p_seg dst) (p_off dst) (DataSize (p_size dst))) as Rdd
+    by (destruct Rd as (R1 & R2 & R3); unfold region_ok; lia).
+  destruct (dst_slice (w_dst w) (p_seg dst) (p_off dst) (DataSize (p_size dst)) Hd Rdd ltac:(lia)) as [-> Ld].
+  cbn [of_res kbind].
+  destruct (src_data_slice _ s Hm Hs V) as [-> Ls]. cbn [of_res kbind].
+  set (sd := sub (seg_of (w_src w) s) (p_off s) (DataSize (p_size s))) in *.
+  set (dd := sub (mem (w_dst w) (p_seg dst)) (p_off dst) (DataSize (p_size dst))) in *.
+  assert (zlen (firstn (Nat.min (length dd) (length sd)) sd) <= DataSize (p_size dst)) as Lb.
+  { unfold zlen in *. rewrite firstn_length. lia. }
+  assert (region_ok (w_dst w) (p_seg dst) (p_off dst) (zlen (firstn (Nat.min (length dd) (length sd)) sd))) as Rbs
+    by (destruct Rdd as (R1 & R2 & R3); unfold region_ok; lia).
+  destruct (seg_write_safe (w_dst w) (p_seg dst) (p_off dst) _ Hd Rbs) as (m1 & E1 & D1 & N1 & L1 & _).
+  pose proof (seg_write_tot _ _ _ _ _ Hd Rbs E1) as T1. rewrite E1.
+  cbn [lift0 bind of_res kbind].
+  assert (wgood w (w_set_dst w m1)) as G1 by (apply wgood_set_dst; auto; apply same_len_grows; auto).
+  pose proof (kfold_postk (wgood w) Phi 32
+    (fun wa i =>
+       let '(r, rl') := struct_ptr c (w_src wa) (w_src_rl wa) s i in
+       let wb := w_set_rl wa InSrc rl' in
+       kbind (of_res r) (fun p => kbind (canonical_ptr c fx f wb (p_seg dst) p) (fun wc =>
+       let '(w2, cp) := wc in of_res (struct_set_ptr 4 w2 dst i InDst cp))))
+    (iota (Z.to_nat (PointerCount (p_size dst)))) (w_set_dst w m1)) as KF.
+  match type of KF with ?A -> ?B -> ?C => assert A as HA end.
+  { intros i wa Hi Ga. apply in_iota in Hi. pose proof Ga as (Da & Gra & Sa & Ra). rewrite Sa. cbv zeta.
+    pose proof (struct_ptr_safe c (w_src w) (w_src_rl wa) s i Hm Hs ltac:(lia)) as SS.
+    pose proof (struct_ptr_charge c (w_src w) (w_src_rl wa) s i ltac:(lia)) as [SC SX].
+    assert (forall q, fst (struct_ptr c (w_src w) (w_src_rl wa) s i) = Ok q -> shape_ok q) as SH'.
+    { intros q. unfold struct_ptr. destruct (_ || _); [cbn [fst]; intros E; inversion E; apply shape_null|apply readPtr_shape]. }
+    destruct (struct_ptr c (w_src w) (w_src_rl wa) s i) as [r rl']. cbn [fst snd] in *.
+    destruct r as [p| |]; cbn [of_res kbind res_sat] in *; [|exact I|exact SS].
+    pose proof (wgood_rl w wa rl' Ga SC) as Gb. pose proof (SS Hc) as Wp.
+    pose proof (IH (w_set_rl wa InSrc rl') (p_seg dst) p) as CP. cbn [w_set_rl w_dst w_src w_src_rl] in CP.
+    specialize (CP Da ltac:(rewrite Sa; exact Hm) ltac:(lia)
+                   ltac:(destruct Rd as (R1 & _); destruct Gra as [Gn _]; lia)
+                   ltac:(rewrite Sa; exact Wp) (SH' p eq_refl)).
+    destruct (canonical_ptr c fx f _ (p_seg dst) p) as [[w2 cp]| | |]; cbn [kbind kpostpk] in *; [|exact I|exact CP|exact I].
+    destruct CP as (G2 & Cp & P2). pose proof (wgood_trans _ _ _ Gb G2) as Gw2. destruct Gw2 as (D2 & Gr2 & S2 & R2).
+    unfold struct_set_ptr. rewrite Vd. cbn [negb orb]. destruct (i >=? PointerCount (p_size dst)) eqn:Ei; [lia|].
+    pose proof (write_ptr_nocopy_k 3 w2 (p_seg dst) (pointerAddress dst i) cp D2 ltac:(lia)
+                  ltac:(eapply region_grows; [exact Gr2|]; apply dst_ptr_slot; auto; lia) Cp) as WP.
+    destruct (write_ptr 4 true w2 (p_seg dst) (pointerAddress dst i) InDst cp false) as [w3| |];
+      cbn [of_res rpostk] in *; [|exact I|exact WP].
+    destruct WP as [G3 P3]. split.
+    - eapply wgood_trans; [|exact G3]. split; [exact D2|]. split; [exact Gr2|]. split; [exact S2|exact R2].
+    - pose proof (slot_cost _ p _ _ Hm Wp (proj1 SC) SX). unfold Phi in *. cbn [w_dst w_src_rl] in P2. lia. }
+  specialize (KF HA G1). clear HA.
+  destruct (kfold _ _ _) as [w3| | |]; cbn [kpostwk]; [|exact I|exact KF|exact I].
+  destruct KF as [G3 P3]. split; [exact G3|]. rewrite zlen_iota in P3.
+  unfold Phi in *. cbn [w_dst w_set_dst w_src_rl] in P3. rewrite T1 in P3. lia.
+Qed.
